@@ -219,6 +219,7 @@ RULE = (
     "range, optional receptor weights in [0.4,2.5], l2_eps in [1e-4,1e-2]; high-accuracy CLARABEL pass-through (2/3) and default settings (1/3). Oracle: BVLS for the best achievable "
     "error; SLSQP witnesses (verified feasible) for the minimal variance; closed form K^2-propagation for the reported variance. "
     "Non-trivial = the variance optimum is below the ordinary fit's variance, an L1 request is active, or a variance matrix is propagated through K."
+    " batch_size in {None,2,3,full} with 1-3 targets; a third of the cases repeat the identical call on the same estimator / arrays (results equal, the variance matrix of the caller byte-identical); a fifth have proportional sources."
 )
 
 PROP = Prop(
